@@ -85,3 +85,8 @@ def run(ctx):
                       "explanation": "exhaustive TLC check of the client/fault model; every (quiescent state, command) transition replayed on a real bus.Client"})
     ctx.assumptions += ["fault model: after Fail every later read and write of the stream errors and a blocked read is woken (what tcp/unix/tls do); half-open streams are out of scope",
                         "'within bounded time' = 10 s on an in-process stream whose normal latency is microseconds"]
+
+    # the outgoing path and the shutdown of an end point whose peer stops draining (EndPointStall.tla, hosted by C17
+    # as well): a Close() that does not return, or handlers a shutdown leaves open, are calls in flight that never fail
+    import ext_stall
+    ext_stall.run(ctx)
